@@ -46,6 +46,28 @@ def _parse_alone(grammar, text):
         return describe_exception(exc)
 
 
+def _keyword_call_offered(grammar):
+    """
+    whether the parse function can be called with its documented parameter name as keyword at all: decided in a
+    pristine process with an expression the positional call accepts (a TypeError then comes from the call shape)
+    """
+    from ahbicht.expressions.ahb_expression_parser import parse_ahb_expression_to_single_requirement_indicator_expressions
+    from ahbicht.expressions.condition_expression_parser import parse_condition_expression_to_tree
+
+    try:
+        if grammar == "cond":
+            parse_condition_expression_to_tree("[1]")
+            parse_condition_expression_to_tree(condition_expression="[2]")
+        else:
+            parse_ahb_expression_to_single_requirement_indicator_expressions("Muss [1]")
+            parse_ahb_expression_to_single_requirement_indicator_expressions(ahb_expression="Muss [2]")
+    except TypeError:
+        return False
+    except BaseException:  # pylint:disable=broad-except
+        return True  # something else is wrong: let the history show it
+    return True
+
+
 def reference_parse(scenario, which, text):
     """
     'whatever happened before': the reference is what the same public function returns when nothing happened before -
@@ -190,12 +212,9 @@ async def do_op(sim, request):
             try:
                 if len(op) > 2 and op[2] == "kw":
                     # the same call with the documented parameter name as keyword
-                    try:
-                        tree = parse(**{"condition_expression" if kind == "P" else "ahb_expression": text})
-                    except TypeError as type_error:
-                        if "unexpected keyword" in str(type_error):
-                            continue  # the parameter was renamed: not a matter of parse history
-                        raise
+                    if not sim.scenario["_parse_references"].get(f"kw|{which}"):
+                        continue  # this call shape is not offered (renamed / positional-only): no parse to judge
+                    tree = parse(**{"condition_expression" if kind == "P" else "ahb_expression": text})
                 else:
                     tree = parse(text)
                 got = canon_tree(tree)
@@ -477,6 +496,9 @@ def execute(scenario):
     parse_references = {
         f"{entry['grammar']}|{entry['text']}": pristine(_parse_alone, entry["grammar"], entry["text"]) for entry in pool
     }
+    if any(op[0] in ("P", "A") and len(op) > 2 and op[2] == "kw" for r in scenario["requests"] for op in r["ops"]):
+        for grammar in ("cond", "ahb"):
+            parse_references[f"kw|{grammar}"] = pristine(_keyword_call_offered, grammar)
     scenario = dict(scenario, _references=references, _parse_references=parse_references)
     shared = {"handles": [], "extracts": [], "edited": set(), "flooded": 0, "flood_counter": 0, "violation": None,
               "nontrivial": False}
